@@ -19,6 +19,10 @@ ReadBack(k, v) == IF v.t = T_STR THEN v.b
 FieldBegin(t, id) == <<t>> \o BE16(id)
 ListBegin(et, n) == <<et>> \o BE32(n)
 MapBegin(kt, vt, n) == <<kt, vt>> \o BE32(n)
+\* ModifyI32: the four bytes at 0-based position pos of an already written buffer replaced (a container count that is only known
+\* after the elements were written); legal for every slot that lies inside the buffer, the last four bytes included
+PatchOk(buf, pos) == pos >= 0 /\ pos + 4 <= Len(buf)
+PatchI32(buf, pos, n) == SubSeq(buf, 1, pos) \o BE32(n) \o SubSeq(buf, pos + 5, Len(buf))
 \* strict message header: version 1 | type, name, seqid (seq as 4 raw bytes)
 MsgBegin(name, mt, seq4) == <<128, 1, 0, mt>> \o BE32(Len(name)) \o name \o seq4
 Wrap(name, mt, seq4, sid, body) == MsgBegin(name, mt, seq4) \o FieldBegin(T_STRUCT, sid) \o body \o <<0>>
